@@ -742,7 +742,7 @@ impl Device for Duart {
             }
             RHRB => {
                 let ctx = &mut self.ports[PORT_1];
-                self.isr &= !ISTS_RAI;
+                self.isr &= !ISTS_RBI;
                 self.ivec &= !KEYBOARD_INT;
                 let val = if let Some(c) = ctx.rx_read_char() {
                     c
